@@ -8,14 +8,13 @@
                        count would: `e.top -= num` then stackPush at index >= 1000).
                        Opcodes without a case in the switch / that read no operand: no constraint.
    code_wf c           every instruction, with its own index
-   span_wf src i       a mark.detail span lies inside the source text the frame runs on
-                       (push.def_expr slices parser.data[Begin:End]); no constraint without a text
+   span_wf src i       a mark.detail span lies inside the source text the frame runs on; no constraint
+                       without a text.  NOT a hypothesis of any theorem any more: push.def_expr was the only
+                       reader (it sliced parser.data[Begin:End]) and now skips a span outside the text.
+                       Kept as a definition (examples in Proofs/VMSafety.v mention it).
    spans_wf src c      every instruction
-   ftab_wf ft          every compiled body of the function table: code_wf, and spans inside the
-                       entry's own Expr (parser.AddStoreComputed / AddStoreFunction shift the spans by
-                       the body's offset; ComputedExecute runs the body on parser.data = Expr, a
-                       function body runs without text).  The table is flat (a nested function is
-                       its own entry), so no recursion is needed. *)
+   ftab_wf ft          every compiled body of the function table: code_wf.  The table is flat (a nested
+                       function is its own entry), so no recursion is needed. *)
 From Coq Require Import String Ascii NArith ZArith List Bool.
 From DS Require Import Model.Str Model.PCG Model.Roll Model.Dice Model.Value Model.VM.
 Import ListNotations.
@@ -66,7 +65,7 @@ Definition spans_wf (src : option string) (c : code) : bool := forallb (span_wf 
 Definition fentry_wf (d : fdata instr) : bool :=
   match f_code d with
   | None => true
-  | Some c => code_wf c && spans_wf (Some (f_expr d)) c
+  | Some c => code_wf c
   end.
 Definition ftab_wf (ft : ftab) : bool := forallb fentry_wf ft.
 
